@@ -27,6 +27,9 @@ CONDS = [
     Cond('custom_map_ok', 'custom maps with symbolic names and definitions (second entry refers to the first): documented '
          'errors only; KeyError only when two names differ only in case',
          'len(name), len(definition) <= 2, all of Unicode; 5 using selectors', timeout={'quick': 110, 'thorough': 900}),
+    Cond('attr_meta_ok', 'regular-expression metacharacters as attribute operands for every operator (plain, in :not, in :is, '
+         'with i flag): compile succeeds and the selector matches the operand literally',
+         '22 operands x 7 operators x 4 forms', timeout={'quick': 60, 'thorough': 120}),
     Cond('long_numbers_ok', 'digit runs of 5 .. 6000 characters (past the 4300-digit int conversion limit) in An+B terms, '
          'attribute values, ids and :lang arguments compile or raise a documented error',
          '6 lengths x 9 forms (enumerated by symbolic index)', timeout={'quick': 60, 'thorough': 120}),
